@@ -434,20 +434,19 @@ def _apply(hd, amp, mean, Rg):
     return [float(x) / 2.0 for x in res["range"]], [float(x) for x in res["mean"]]
 
 
-def _known_classes(ctx, segs, legs):
-    """legs: (a, m, Rg) triples the relation depends on.  Returns True when the case belongs to a known-finding class
-    that is listed as known (-> caller drops the cycle)."""
-    hit = None
-    for a, m, Rg in legs:
-        if f12_class(a, m, Rg):
-            hit = "F12"
-        elif f12a_class(segs, a, m, Rg):
-            hit = "F12_a"
-        elif f12b_class(segs, a, m, Rg):
-            hit = "F12_b"
-        if hit:
-            break
-    return hit
+def _known_classes(segs, legs):
+    """legs: (a, m, Rg, direct) tuples the relations of one cycle depend on.  Returns the id of the known-finding class the
+    cycle belongs to, or None.  F12 changes the amplitude only if the R > 1 segment has a slope; the returned mean (asserted on
+    the direct leg only) is affected in any case."""
+    slope_gt1 = any(l >= 1.0 and M > 0.0 for l, r, M in segs)
+    for a, m, Rg, direct in legs:
+        if f12b_class(segs, a, m, Rg):
+            return "F12_b"
+        if f12_class(a, m, Rg) and (direct or slope_gt1):
+            return "F12"
+        if f12a_class(segs, a, m, Rg):
+            return "F12_a"
+    return None
 
 
 @subcheck("C12", "diagram_relations", strategy=_relation_cases, quick=700, thorough=28000,
@@ -487,8 +486,8 @@ def diagram_relations(case, ctx):
             ctx.label("cycle_out_of_domain")
             continue
         ctx.label(_region(a, m))
-        legs = [(a, m, R2), (a, m, R1), (want1[i], want1[i] * q1, R2), (want1[i], want1[i] * q1, R1)]
-        hit = _known_classes(ctx, segs, legs)
+        legs = [(a, m, R2, True), (a, m, R1, False), (want1[i], want1[i] * q1, R2, False), (want1[i], want1[i] * q1, R1, False)]
+        hit = _known_classes(segs, legs)
         if hit:
             ctx.label(hit + "_class")
             if hit not in active:
